@@ -29,13 +29,27 @@ func TestC05_Sizes(t *testing.T) {
 	forCurves(t, func(t *testing.T, p *pc) {
 		name := p.c.Name
 		test := "C05_Sizes/" + name
+		// all (m,n) in 0..4 x 0..4, plus mismatches around the machine-word sizes
+		var grid [][2]int
+		for m := 0; m <= 4; m++ {
+			for n := 0; n <= 4; n++ {
+				grid = append(grid, [2]int{m, n})
+			}
+		}
+		grid = append(grid, [2]int{64, 65}, [2]int{65, 64}, [2]int{129, 128}, [2]int{65, 1}, [2]int{0, 65})
 		for _, content := range []string{"finite", "infinity_last", "infinity_all"} {
-			for m := 0; m <= 4; m++ {
-				for n := 0; n <= 4; n++ {
+			for _, mn := range grid {
+				{
+					m, n := mn[0], mn[1]
+					if m > 4 || n > 4 {
+						if content == "infinity_all" {
+							continue
+						}
+					}
 					sc := func(cnt int) []*big.Int {
 						out := make([]*big.Int, cnt)
 						for i := range out {
-							out[i] = big.NewInt(int64(i + 1))
+							out[i] = big.NewInt(int64(i%7 + 1))
 							if content == "infinity_all" || (content == "infinity_last" && i == cnt-1) {
 								out[i] = new(big.Int)
 							}
@@ -43,6 +57,17 @@ func TestC05_Sizes(t *testing.T) {
 						return out
 					}
 					P, Q := p.libPts(0, sc(m)), p.libPts(1, sc(n))
+					var lcache interface{}
+					lines := func() interface{} {
+						if lcache == nil {
+							lcache = p.lines(Q)
+						}
+						return lcache
+					}
+					large := ""
+					if m > 4 || n > 4 {
+						large = "size:mismatch_large"
+					}
 					type res struct {
 						gt  interface{}
 						ok  *bool
@@ -56,9 +81,9 @@ func TestC05_Sizes(t *testing.T) {
 						{"Pair", func() res { v, e := p.pair(P, Q); return res{gt: v, err: e} }},
 						{"PairingCheck", func() res { v, e := p.check(P, Q); return res{ok: b(v), err: e} }},
 						{"MillerLoop", func() res { v, e := p.miller(P, Q); return res{gt: v, err: e} }},
-						{"PairFixedQ", func() res { v, e := p.pairFixed(P, p.lines(Q)); return res{gt: v, err: e} }},
-						{"PairingCheckFixedQ", func() res { v, e := p.checkFixed(P, p.lines(Q)); return res{ok: b(v), err: e} }},
-						{"MillerLoopFixedQ", func() res { v, e := p.millerFixed(P, p.lines(Q)); return res{gt: v, err: e} }},
+						{"PairFixedQ", func() res { v, e := p.pairFixed(P, lines()); return res{gt: v, err: e} }},
+						{"PairingCheckFixedQ", func() res { v, e := p.checkFixed(P, lines()); return res{ok: b(v), err: e} }},
+						{"MillerLoopFixedQ", func() res { v, e := p.millerFixed(P, lines()); return res{gt: v, err: e} }},
 					}
 					if p.c.Pkg.Has("MillerLoopDirect") {
 						entries = append(entries, struct {
@@ -79,7 +104,11 @@ func TestC05_Sizes(t *testing.T) {
 							if r.err == nil {
 								t.Fatalf("%s: size mismatch not reported as an error", what)
 							}
-							rep.Case(test, key, true, "size:mismatch", "entry:"+en.nm, "content:"+content)
+							if large != "" {
+								rep.Case(test, key, true, "size:mismatch", large, "entry:"+en.nm, "content:"+content)
+							} else {
+								rep.Case(test, key, true, "size:mismatch", "entry:"+en.nm, "content:"+content)
+							}
 						case m == 0:
 							if r.err == nil {
 								if r.ok != nil && !*r.ok {
